@@ -26,9 +26,9 @@ ASSUMPTIONS = [
     'ground truth is read from the datastore inside the same Designer.update() call',
 ]
 REQUIRED_COUNTERS = ['designer_state_corruptions', 'server_restarts', 'update_events', 'deliveries_ledgered', 'events_with_active', 'state_restorations',
-                     'state_losses', 'rebuilt_policy_events', 'inram_events']
+                     'state_losses', 'rebuilt_policy_events', 'inram_events', 'kept_alive_policy_events']
 MIN_DISTINCT = {'quick': 150, 'thorough': 3000}
-ROUTES = ['svc-ps-ram', 'svc-ps-sqlmem', 'svc-dp-ram', 'inram-ps', 'svc-ps-sqlfile', 'svc-ps-ram']
+ROUTES = ['svc-ps-ram', 'svc-ps-sqlmem', 'svc-dp-ram', 'inram-ps', 'svc-ps-sqlfile', 'svc-ps-ram', 'svc-keep-ram', 'svc-keep-sqlmem']
 
 
 def plan(tier, seed):
@@ -114,7 +114,22 @@ def custom_policies():
           problem, supporter, cls),
       'VVREC_DP': lambda problem, supporter, study_name: dp.DesignerPolicy(
           supporter, lambda p, **kw: cls(p), use_seeding=False),
+      # a policy factory that keeps one policy (and therefore the supporter of the
+      # first request) alive per study, as a long-running Pythia host may do
+      'VVREC_KEEP': _kept_alive(lambda problem, supporter: dp.PartiallySerializableDesignerPolicy(
+          problem, supporter, cls)),
   }
+
+
+KEPT = {}
+
+
+def _kept_alive(build):
+  def factory(problem, supporter, study_name):
+    if study_name not in KEPT:
+      KEPT[study_name] = build(problem, supporter)
+    return KEPT[study_name]
+  return factory
 
 
 # ---------------------------------------------------------------------------
@@ -234,7 +249,8 @@ def run_service(ctx, index, route, steps):
   from vv import service as S
   from vizier._src.service import vizier_service_pb2 as vsp
   _, kind, backend = route.split('-')
-  algo = 'VVREC_PS' if kind == 'ps' else 'VVREC_DP'
+  algo = {'ps': 'VVREC_PS', 'dp': 'VVREC_DP', 'keep': 'VVREC_KEEP'}[kind]
+  KEPT.clear()
   mon = S.WriteMonitor()
   ctl = S.Controller()
   tmpdir = None
@@ -276,6 +292,8 @@ def run_service(ctx, index, route, steps):
         ctx.violation('suggest-failed', f'{route} step {step_no}: suggest -> {ocls} {str(oresp)[:200]}', case)
         break
       for ev in REC.events[n_ev:]:
+        if kind == 'keep':
+          ctx.count('kept_alive_policy_events')
         ledger.on_event(ev, step_no)
     elif k == 'complete':
       pool = sorted(by_state.get('ACTIVE', []) + by_state.get('STOPPING', []))
